@@ -13,7 +13,7 @@ use ark_poly_commit::LabeledCommitment;
 use ark_std::rand::RngCore;
 
 /// The effective key parameters: (supported degree, sorted distinct bounds the key serves or None = any in range)
-fn eff<S: Sch>(cfg: &KeyCfg) -> (usize, Option<Vec<usize>>) {
+pub fn eff<S: Sch>(cfg: &KeyCfg) -> (usize, Option<Vec<usize>>) {
     if S::NAME == "IPA" {
         ((cfg.sup + 1).next_power_of_two() - 1, None)
     } else {
@@ -25,7 +25,7 @@ fn eff<S: Sch>(cfg: &KeyCfg) -> (usize, Option<Vec<usize>>) {
 }
 
 /// Is (deg, bound) admissible under the key?
-fn admissible<S: Sch>(cfg: &KeyCfg, deg: usize, bound: Option<usize>) -> bool {
+pub fn admissible<S: Sch>(cfg: &KeyCfg, deg: usize, bound: Option<usize>) -> bool {
     let (s, served) = eff::<S>(cfg);
     if deg > s {
         return false;
